@@ -116,6 +116,11 @@ def run(ctx):
         A.include(ctx, r, 'c10', 'R10.1')
         A.include(ctx, r, 'c10', 'R10.2')
 
+    with ctx.rule('R04.8', 'only replies enter a reply queue: a server-initiated Cancel answers on the wire, not into the caller queue (shared with C11)', floor=1) as r:
+        A.check_script(ctx, r, arms, ('Method', 'n', 'basic', 'Cancel'), why='an unsolicited message in the reply queue is handed to the next call on that channel')
+    with ctx.rule('R04.9', 'wrapper operations (Queue / Exchange / Consumer) wait exactly when the wire says so (shared with C12)', floor=30) as r:
+        A.include(ctx, r, 'c12', 'R12.1', pick=(':field:nowait', ':returns', ':on'))
+
     with ctx.rule('R04.4', 'call = send on own sender, receive on own receiver, type-check; get / consume likewise', floor=6) as r:
         rows = P.table(ctx, H0 + 'call_message', ['self', 'message'])
         site = ctx.site(H0 + 'call_message')
